@@ -2048,7 +2048,9 @@ class binary(base_quantizer.BaseQuantizer):  # pylint: disable=invalid-name
 
   def __str__(self):
     def list_to_str(l):
-      return ",".join([str(x) for x in l])
+      # space separated, which is how safe_eval spells a list of numbers
+      # (a comma would be taken for the next argument).
+      return " ".join([str(x) for x in l])
 
     flags = []
     if self.use_01:
